@@ -6,9 +6,9 @@ import os
 VERIF = os.path.dirname(os.path.dirname(os.path.abspath(__file__)))
 
 CLAIMED = {
-    "C01": ("Lean theorems record_addresses (every parse of a line-record layout regenerated from the source: record_start = pos, data.start = pos + 192/544, data.stop = pos + record_length) / layout_ranges (the chunk loop of read_metadata through the layout interpreter gives [720+iL+P, 720+(i+1)L) for every records_per_chunk) / wf_ranges / pixel_fidelity / prefix_lengths / sample_sizes (all geometries, all positive rpc) over hand models of io.py+array.py, tied by translator (layouts, 720, tables) and seeded correspondence; end-to-end oracle on 4 filesystems",
+    "C01": ("Lean theorems reader_pixel_fidelity (end to end on the models: image file bytes -> layout-based reader -> lazy array -> samples, every records_per_chunk) / record_addresses (every parse of a line-record layout regenerated from the source: record_start = pos, data.start = pos + 192/544, data.stop = pos + record_length) / layout_ranges (the chunk loop of read_metadata through the layout interpreter gives [720+iL+P, 720+(i+1)L) for every records_per_chunk) / wf_ranges / pixel_fidelity / prefix_lengths / sample_sizes (all geometries, all positive rpc) over hand models of io.py+array.py, tied by translator (layouts, 720, tables) and seeded correspondence; end-to-end oracle on 4 filesystems",
             "numpy's byte reinterpretation and fsspec I/O are contracts (tested); model tied by differential testing", "7 C01"),
-    "C02": ("Lean theorem getitem_eq_np: model of Array.__getitem__ = NumPy basic indexing of the loaded image for every image, rpc and basic key; BASIC support re-read from source; correspondence over the full slice cube; isel/vectorised oracle vs in-memory twin",
+    "C02": ("Lean theorems reader_getitem_eq_np (the array the reader builds from an image file: every basic selection equals NumPy indexing of the file's own samples) and getitem_eq_np: model of Array.__getitem__ = NumPy basic indexing of the loaded image for every image, rpc and basic key; BASIC support re-read from source; correspondence over the full slice cube; isel/vectorised oracle vs in-memory twin",
             "xarray's indexer decomposition is third-party (tested end-to-end; two xarray-internal failures are recorded as known findings)", "7 C02"),
     "C06": ("Lean theorems product_rpc_independent (whole-product model: root attributes, summary, /metadata and the set and order of image groups do not depend on the chunk size) / image_rpc_independent (layout-based reader: two successful opens of a well-framed image with any two chunk sizes return the same header, line records, image group and array metadata up to the chunk size) / record_window (translation invariance of the layout interpreter on the line-record layouts) / metadata_rpc_independent / data_rpc_independent / preferred_chunksize; pairwise bit-exact tree comparison oracle",
             "float division in math.ceil exact below 2**53", "7 C06"),
